@@ -41,12 +41,12 @@ ASSUMPTIONS = [
 ]
 REQUIRED_CLASSES = {
     "all": ["inject=none", "inject=offdiag_h0", "inject=shared_energy", "inject=mask_degenerate", "inject=nonorthonormal",
-            "inject=asymmetric_mask", "inject=nonhermitian_sympy", "inject=exclusive_options", "inject=zero_diagonal", "inject=nonconserving_h0",
+            "inject=asymmetric_mask", "inject=nonhermitian_sympy", "inject=exclusive_options", "inject=zero_diagonal", "inject=nonconserving_h0", "inject=nonhermitian_sympy_operators",
             "mode=nonhermitian", "lower-triangle-only"]
 }
 ALLOWED = (ValueError, TypeError, NotImplementedError)
 KINDS = ["none", "offdiag_h0", "offdiag_h0", "shared_energy", "shared_energy", "mask_degenerate", "nonorthonormal",
-         "asymmetric_mask", "nonhermitian_sympy", "exclusive_options", "zero_diagonal", "nonconserving_h0"]
+         "asymmetric_mask", "nonhermitian_sympy", "exclusive_options", "zero_diagonal", "nonconserving_h0", "nonhermitian_sympy_operators"]
 
 
 def strategy(tier):
@@ -146,6 +146,45 @@ def check_case(case, enforce_all=False):
             out.fail("wrong-exception-type", f"non-conserving H_0 = {H0}: {type(exc).__name__}: {str(exc)[:200]}")
             return out
         out.fail("accepted-ill-posed", f"a second-quantised H_0 that does not conserve particle numbers was accepted: {H0}")
+        return out
+    if kind == "nonhermitian_sympy_operators":
+        # Hermitian-mode symbolic matrix that contains second-quantised operators (in H_0 and possibly in a Hermitian
+        # coupling) next to an operator-free term that is NOT Hermitian
+        from sympy.physics.quantum import Dagger
+        from sympy.physics.quantum.boson import BosonOp
+
+        a = BosonOp("a")
+        g, e = sympy.symbols("g epsilon", real=True)
+        wq = sympy.Rational(7, 2)
+        na = Dagger(a) * a
+        H0 = sympy.Matrix([[na + wq / 2, 0], [0, na - wq / 2]])
+        c = par["size"] if par["size"] != 1 else 2
+        Vbad = sympy.Matrix([[0, e], [c * e, 0]])
+        Vjc = sympy.Matrix([[0, g * a], [g * Dagger(a), 0]])
+        with_jc = par["a"] % 2 == 0
+        bad_first = par["b"] % 2 == 0
+        H = H0 + Vbad + (Vjc if with_jc else sympy.zeros(2))
+        syms = ([e, g] if bad_first else [g, e]) if with_jc else [e]
+        pos = syms.index(e)
+        out.labels.append("operators+bad-c-number-term" + ("+jc" if with_jc else ""))
+        try:
+            with warnings.catch_warnings():
+                warnings.simplefilter("ignore")
+                res = block_diagonalize(H, symbols=syms, subspace_indices=[0, 1], hermitian=True)
+                for n in range(3):
+                    idx = tuple(n if q == pos else 0 for q in range(len(syms)))
+                    for series in res:
+                        for i in range(2):
+                            for j in range(2):
+                                series[(i, j) + idx]
+        except ALLOWED:
+            out.labels.append("rejected")
+            out.nontrivial = True
+            return out
+        except Exception as exc:  # noqa: BLE001
+            out.fail("wrong-exception-type", f"non-Hermitian term {Vbad.tolist()} next to operator terms: {type(exc).__name__}: {str(exc)[:200]}")
+            return out
+        out.fail("accepted-ill-posed", f"Hermitian mode accepted the symbolic Hamiltonian {H.tolist()} whose term in epsilon is not Hermitian, up to order 2 in epsilon")
         return out
     if kind == "shared_energy":
         pr = pick_cross_pair()
